@@ -142,5 +142,78 @@ def run(ctx):
             res.ok(key, b.where(), "insert touches only self.variables")
         else:
             res.bad(key, "%s touches %s" % (bid, sorted(touched)), b.where())
+    # sibling agreement: a child that runs in the construct's own scope is also folded in it, and a child that runs in the
+    # enclosing scope is folded in the enclosing scope (otherwise the names substituted at closure creation and the names
+    # looked up at run time differ: "Tried to get variable x that doest exist")
+    from .evalorder import recv
+    RUNLIKE = ("instruction::Exec::exec", IN + "exec")
+    FOLDLIKE = ("instruction::InstructionWithStr::recreate", "instruction::Recreate::recreate", "instruction::recreate_instructions")
+
+    def classify(b, maker, callees):
+        mk = [c for c in b.calls if c.callee == maker]
+        out = {}
+        if len(mk) != 1 or mk[0].dest["p"]:
+            return out
+        layer = mk[0].dest["l"]
+        for c in b.calls:
+            if c.path not in callees and c.callee not in callees:
+                continue
+            r = None
+            for a in c.args:
+                r = recv(b, a)
+                if r and r[1]:
+                    break
+            if not r or not r[1]:
+                continue
+            f = r[1][0]
+            cls = "own scope" if any(derives_from(b, a, layer) for a in c.args) else "enclosing scope"
+            out.setdefault(f, set()).add(cls)
+        return out
+    for run_id, fold_id in ((P % ("control_flow::set_if_else::SetIfElse", "Exec", "exec"), P % ("control_flow::set_if_else::SetIfElse", "Recreate", "recreate")),
+                            ("instruction::control_flow::match_arm::MatchArm::exec", "instruction::control_flow::match_arm::MatchArm::recreate"),
+                            (P % ("block::Block", "Exec", "exec"), P % ("block::Block", "Recreate", "recreate"))):
+        rb, fb = lib.body(run_id), lib.body(fold_id)
+        if rb is None or fb is None:
+            continue
+        rc = classify(rb, IN + "create_layer", RUNLIKE)
+        fc = classify(fb, LV + "create_layer", FOLDLIKE)
+        for f in sorted(set(rc) & set(fc)):
+            key = "scope-agreement:%s.%s" % (run_id.split(" as ")[0].lstrip("<").rsplit("::", 1)[-1] if " as " in run_id else run_id.rsplit("::", 2)[-2], f)
+            if rc[f] == fc[f]:
+                res.ok(key, fb.where(), "child `%s` runs and is folded in the %s" % (f, "/".join(sorted(rc[f]))))
+            else:
+                res.bad(key, "child `%s` runs in the %s but is folded in the %s: a captured outer variable with the name bound by the "
+                             "construct is not substituted at closure creation and is missing at run time" % (f, "/".join(sorted(rc[f])), "/".join(sorted(fc[f]))),
+                        fb.where())
+    # who may open a scope / run a statement sequence in a scope: exactly the reviewed constructs (a scope opened
+    # elsewhere has a different lifetime than the construct it belongs to, e.g. one layer for all iterations of a loop)
+    own = __import__("ssl.owners", fromlist=["for_crate"]).for_crate(lib)
+    WHO = {
+        IN + "create_layer": {P % ("block::Block", "Exec", "exec"), P % ("control_flow::set_if_else::SetIfElse", "Exec", "exec"),
+                              P % ("type_filter::TypeFilter", "Exec", "exec"), "instruction::control_flow::match_arm::MatchArm::exec"},
+        IN + "exec": {P % ("block::Block", "Exec", "exec"), P % ("array::Array", "Exec", "exec"), P % ("tuple::Tuple", "Exec", "exec"),
+                      "function::Function::exec"},
+        LV + "create_layer": {"instruction::block::Block::create_instruction", P % ("block::Block", "Recreate", "recreate"),
+                              "instruction::control_flow::match_arm::MatchArm::new", "instruction::control_flow::match_arm::MatchArm::recreate",
+                              "instruction::control_flow::set_if_else::SetIfElse::create",
+                              P % ("control_flow::set_if_else::SetIfElse", "Recreate", "recreate"),
+                              "instruction::r#loop::r#for::create_instruction", "instruction::module::create_instruction",
+                              "instruction::import::create_instruction"},
+        LV + "function_layer": {"instruction::function::anonymous::AnonymousFunction::create_instruction",
+                                P % ("function::anonymous::AnonymousFunction", "Recreate", "recreate"),
+                                "instruction::function::declaration::FunctionDeclaration::create_instruction",
+                                P % ("function::declaration::FunctionDeclaration", "Recreate", "recreate")},
+    }
+    for callee, allowed in WHO.items():
+        for c in sorted(lib.callers.get(callee, ())):
+            os_ = own.of(c)
+            key = "who-opens:%s|%s" % (callee.rsplit("::", 1)[-1] + ("@Interpreter" if callee.startswith(IN) else "@LocalVariables"), c)
+            cb = lib.body(c)
+            if os_ and all(o in allowed for o in os_):
+                res.ok(key, cb.where() if cb else "")
+            else:
+                res.bad(key, "%s calls %s: scopes are opened / statement sequences are run only by the reviewed scoping constructs (%d of "
+                             "them); a scope opened here lives differently from the construct it belongs to" % (c, callee, len(allowed)),
+                        cb.where() if cb else "")
     res.floor(len(res.instances), 24, "layer_instances")
     return res
